@@ -9,19 +9,20 @@ EXTENDS VHost, Json
 
 CONSTANT Tier           \* "quick" | "thorough"
 
-KeysUpTo(n) == UNION {[1..k -> KeySyms] : k \in 0..n}
-KeysOfLen(n) == [1..n -> KeySyms]
+\* quick uses the six basic tokens; thorough adds the lower-case escape "%2f" and "+"
+Syms     == IF Tier = "quick" THEN {"c", "sl", "e2f", "e25", "sp", "u"} ELSE KeySyms
+BaseSyms == {"c", "sl", "e2f", "e25", "sp", "u"}
+KeysUpTo(n) == UNION {[1..k -> Syms] : k \in 0..n}
+KeysOfLen(n) == [1..n -> BaseSyms]
 Case(kd, b, k, m, h) == [kind |-> kd, bucket |-> b, key |-> k, method |-> m, hostform |-> h]
 
-\* api: every key of length <= 2 x bucket class x method x host form; longer keys
-\* (where "//" inside, leading and trailing "/" combine) on one bucket / host form
+\* api: every key of length <= 2 (thorough: <= 3) x bucket class x method x host form; longer
+\* keys (where "//" inside, leading and trailing "/" combine) on one bucket / host form
 CasesApi ==
-  {Case("api", b, k, m, h) : b \in Buckets, k \in KeysUpTo(2), m \in Methods, h \in HostForms}
-  \cup {Case("api", "plain", k, m, "bare") : k \in KeysOfLen(3),
-                                             m \in IF Tier = "quick" THEN {"GET", "PUT", "DELETE"} ELSE Methods}
-  \cup (IF Tier = "quick" THEN {}
-        ELSE {Case("api", "dotted", k, m, "port") : k \in KeysOfLen(3), m \in Methods}
-             \cup {Case("api", "plain", k, m, "bare") : k \in KeysOfLen(4), m \in Methods})
+  {Case("api", b, k, m, h) : b \in Buckets, k \in KeysUpTo(IF Tier = "quick" THEN 2 ELSE 3), m \in Methods, h \in HostForms}
+  \cup (IF Tier = "quick"
+        THEN {Case("api", "plain", k, m, "bare") : k \in KeysOfLen(3), m \in {"GET", "PUT", "DELETE"}}
+        ELSE {Case("api", "plain", k, m, "bare") : k \in KeysOfLen(4), m \in Methods})
 
 \* website endpoint and custom domain: every method on keys of length <= 2 (quick: <= 1 and some)
 CasesWeb ==
